@@ -25,14 +25,14 @@ K4_PATTERNS = [
     (re.compile(r"^<(\[.*\]|str|alloc::vec::Vec|alloc::string::String|.*) as core::ops::index::Index(Mut)?>::index(_mut)?$"), "index"),
     (re.compile(r"^core::ops::index::Index(Mut)?::index(_mut)?$"), "index"),
     (re.compile(r"^alloc::vec::Vec::(remove|insert|swap_remove|drain|split_off|truncate_front)$"), "vec-op"),
-    (re.compile(r"^core::slice::(split_at|split_at_mut|copy_from_slice|clone_from_slice|swap|chunks|chunks_exact|windows|rotate_left|rotate_right)$"), "slice-op"),
-    (re.compile(r"^core::str::(split_at|split_at_mut)$"), "str-op"),
+    (re.compile(r"^core::slice::(<impl \[T\]>::)?(split_at|split_at_mut|copy_from_slice|clone_from_slice|swap|chunks|chunks_exact|windows|rotate_left|rotate_right)$"), "slice-op"),
+    (re.compile(r"^core::str::(<impl str>::)?(split_at|split_at_mut)$"), "str-op"),
     (re.compile(r"^alloc::string::String::(insert|insert_str|remove|split_off|replace_range|drain)$"), "string-op"),
     (re.compile(r"^core::cell::RefCell::(borrow|borrow_mut)$"), "refcell"),
-    (re.compile(r"^core::num::(pow|abs|isqrt|ilog|ilog2|ilog10|div_euclid|rem_euclid|next_power_of_two)$"), "int-op"),
+    (re.compile(r"^core::num::(<impl \w+>::)?(pow|abs|isqrt|ilog|ilog2|ilog10|div_euclid|rem_euclid|next_power_of_two)$"), "int-op"),
     (re.compile(r"^core::iter::traits::iterator::Iterator::(sum|product|step_by)$"), "iter-op"),
-    (re.compile(r"^core::char::methods::from_digit$|^core::char::from_digit$"), "from_digit"),
-    (re.compile(r"^core::char::methods::to_digit$"), "to_digit"),
+    (re.compile(r"^core::char::methods::(<impl char>::)?from_digit$|^core::char::from_digit$"), "from_digit"),
+    (re.compile(r"^core::char::methods::(<impl char>::)?to_digit$"), "to_digit"),
     (re.compile(r"^std::time::.*::(duration_since|sub|add)$"), "time"),
 ]
 
@@ -165,9 +165,11 @@ def discharge_const(site):
         return None
     ops = site.node["ops"]
     vals = [const_operand(o) for o in ops]
+    ak = site.what
+    if ak in ("Overflow:Div", "Overflow:Rem") and len(vals) == 2 and vals[1] is not None and vals[1] != -1:
+        return "const: divisor %d is not -1" % vals[1]
     if any(v is None for v in vals):
         return None
-    ak = site.what
     ty = ops[0].get("c", {}).get("ty")
     rng = INT_RANGE.get(ty)
     if ak.startswith("Overflow:") and rng:
@@ -233,6 +235,37 @@ class Discharger:
         return p
 
     # ---- rules -----------------------------------------------------
+    def cond_rule(self, site):
+        """the assert condition itself folds to the passing value (e.g. `Eq(10, 0)` for a constant divisor)"""
+        if site.kind != "K3":
+            return None
+        t = site.node
+        p = op_place(t["cond"])
+        if p is None or p["p"]:
+            return None
+        d = self.defs.single(p["l"])
+        if not d or d[0] != "st" or d[3]["k"] != "=":
+            return None
+        rv = d[3]["rv"]
+        if rv["k"] == "bin" and rv["op"] in ("Eq", "Ne", "Lt", "Le", "Gt", "Ge"):
+            a, b = const_operand(rv["a"]), const_operand(rv["b"])
+            if a is not None and b is not None:
+                r = {"Eq": a == b, "Ne": a != b, "Lt": a < b, "Le": a <= b, "Gt": a > b, "Ge": a >= b}[rv["op"]]
+                if bool(r) == bool(t["exp"]):
+                    return "const: assert condition %s(%d, %d) always passes" % (rv["op"], a, b)
+            # division by a non-constant divisor: find the divisor local for the guard rule
+        return None
+
+    def divisor_of(self, site):
+        """for DivisionByZero/RemainderByZero: the divisor operand (from the `Eq(divisor, 0)` condition)"""
+        p = op_place(site.node["cond"])
+        if p is None or p["p"]:
+            return None
+        d = self.defs.single(p["l"])
+        if d and d[0] == "st" and d[3]["k"] == "=" and d[3]["rv"]["k"] == "bin" and d[3]["rv"]["op"] == "Eq":
+            return d[3]["rv"]["a"]
+        return None
+
     def type_rule(self, site):
         fn = self.fn
         if site.kind == "K2":
@@ -369,7 +402,8 @@ class Discharger:
         if site.kind == "K3" and site.what == "OverflowNeg":
             pass
         if site.kind == "K3" and site.what in ("DivisionByZero", "RemainderByZero"):
-            p = self.src_local(site.node["ops"][0])
+            dv = self.divisor_of(site)
+            p = self.src_local(dv) if dv is not None else None
             if p is not None and not p["p"]:
                 lo, hi = self.range_of(p["l"], site.bb)
                 if (lo is not None and lo > 0) or (hi is not None and hi < 0):
@@ -397,7 +431,7 @@ class Discharger:
                     return "guard: dominated by is_some()/is_ok() of the same value"
             prod = _producer(fn, self.defs, site.node["args"][0]) or ""
             # char::from_u32 of a value known < 0xD800 etc. handled by range
-            if prod.endswith("char::methods::from_u32") or prod.endswith("char::from_u32") or prod.endswith("convert::from_u32"):
+            if prod.endswith("::from_u32"):
                 d = self._producer_call(site.node["args"][0])
                 if d is not None:
                     q = self.src_local(d["args"][0])
